@@ -6,7 +6,7 @@ META = {
     "property_id": "C12",
     "level": "model_checking",
     "technique": "TLA+ spec of the trie sync scheduler (TrieSync.tla) model-checked with TLC over targets with storage tries, shared codes and identical subtries, for all closed pre-populated databases, delivery orders, batch sizes, repeats and commit points; TLC-generated schedules executed on state.NewStateSync over real databases in both schemes; every call validated against TrieSyncTrace.tla",
-    "text": "TrieSync.tla models NewSync/AddSubTrie/AddCodeEntry/Missing/ProcessNode/ProcessCode/Commit as the code does them (requests per path, existence looked up in the database only, by hash or by path+hash with deletion of a different node and of dangling nodes inside extension keys, dependency counters, bottom-up batch). TLC checks on a built-in target and on targets built from real states: only target nodes/codes are requested and written, the database and the pending batch stay child-closed (no node before its children), dependency counters are exact, MemSize equals the batch contents, and nothing pending implies the whole target is stored; termination is checked as a liveness property. Schedules sampled by TLC (initial database, batch sizes, order, repeats, early and undecodable answers, commits) are executed on the real scheduler; each call's error class, Missing set, Pending(), MemSize() and database listing must be a step of the specification, and a finished sync is re-read through the database and compared with the source state. The hash cross-reference of responses (HealFilter.tla) is model-checked for all short requests/responses and validated on heal-only runs of the real snap/1 syncer fed with corrupted, extra and reordered blobs: verdict per response as specified, final database complete and free of foreign blobs.",
+    "text": "TrieSync.tla models NewSync/AddSubTrie/AddCodeEntry/Missing/ProcessNode/ProcessCode/Commit as the code does them (requests per path, existence looked up in the database only, by hash or by path+hash with deletion of a different node and of dangling nodes inside extension keys, dependency counters, bottom-up batch). TLC checks on a built-in target and on targets built from real states: only target nodes/codes are requested and written, the database and the pending batch stay child-closed (no node before its children), dependency counters are exact, the per-depth in-flight counter (maxFetchesPerDepth throttle, small bound in the model) is bounded and equals the requests handed out and not completed, MemSize equals the batch contents, and nothing pending implies the whole target is stored; termination is checked as a liveness property. Schedules sampled by TLC (initial database, batch sizes, order, repeats, early and undecodable answers, commits) are executed on the real scheduler; each call's error class, Missing set, Pending(), MemSize() and database listing must be a step of the specification, and a finished sync is re-read through the database and compared with the source state. A bulk run (one contract with 35 000 slots, honest batched delivery, both schemes) exercises the real throttle: when Missing returns nothing, nothing may be pending and the database must equal the source. The hash cross-reference of responses (HealFilter.tla) is model-checked for all short requests/responses and validated on heal-only runs of the real snap/1 syncer fed with corrupted, extra and reordered blobs: verdict per response as specified, final database complete and free of foreign blobs.",
     "note": "Trusts TLC and the id mapping of harness/cmd/c12. The local database before the sync is assumed child-closed with respect to the target (what the sync itself maintains). A delivery whose hash differs from the requested hash is filtered in eth/protocols/snap (OnTrieNodes/onHealByteCodes) before trie.Sync sees it (trie.Sync itself only rejects undecodable blobs): that clause is specified in HealFilter.tla and bound by heal-only runs of snap.NewV1Syncer against a tampering harness peer (requests there carry one node each, so gaps/reordering are covered by the model only).",
     "design_ref": "3.2 C12",
 }
@@ -100,6 +100,19 @@ def run(ctx):
                              name="c12-record[%s]" % scheme, timeout=3600)
             if not s.get("violations"):
                 validate(ctx, "TrieSyncTraceR%d%s" % (j, scheme), wp, scheme, tp, s["traces"], "random %d, %s" % (j, scheme))
+    # bulk: one contract with ~35 000 slots through state.NewStateSync, honest batched delivery; the per-depth
+    # in-flight throttle (maxFetchesPerDepth) is active at this size.  A sync that stops with requests
+    # pending while Missing returns nothing is a violation of the termination clause (decided by the driver
+    # and by BulkSyncTrace.tla on the summarised trace).
+    for scheme in ("path", "hash"):
+        tp = os.path.join(ctx.scratch, "bulk-%s.ndjson" % scheme)
+        s, _ = ctx.drive(drv, ["-mode", "bulk", "-scheme", scheme, "-slots", ctx.pick(35000, 120000), "-trace", tp],
+                         name="c12-bulk[%s]" % scheme, timeout=7200)
+        if not s.get("violations"):
+            ok, consumed, total, r = ctx.validate("trie/BulkSyncTrace", tp, ntraces=1, timeout=3600, name="BulkSyncTrace[%s]" % scheme)
+            if not ok:
+                ctx.reject_trace("trie/BulkSyncTrace", tp, consumed, r)
+
     # the hash filter in front of the scheduler: guarantees of HealFilter.tla for all short requests/responses,
     # and heal-only runs of the real snap/1 syncer against a tampering peer (corrupted / extra / reordered blobs)
     ctx.model_check("trie/MCHealFilter", "trie/MCHealFilter", timeout=3600, name="MCHealFilter", workers=2)
